@@ -604,6 +604,10 @@ class Tracker:
                 m = {"Ok": "Some", "Err": "None"}
                 if steps[0] in m:
                     return ("val", (m[steps[0]],) + tuple(steps[1:]), neg)
+            if c.endswith("Result::err") and len(steps) == 1:
+                m = {"Ok": "None", "Err": "Some"}
+                if steps[0] in m:
+                    return ("val", (m[steps[0]],), neg)
         if _suffix_match(c, ("core::clone::Clone>::clone", "core::ops::deref::Deref>::deref")) or \
                 g.endswith("Clone::clone") or g.endswith("Deref::deref"):
             return st
